@@ -30,6 +30,30 @@ CHECKS = {
          "exhaustive crash-point enumeration (every commit-log prefix of every transition of the explored state graph) and exhaustive placement of 1..3 consecutive failing flush writes, on the real store",
          "BFS over {Append slices, DeleteRanges, Restart} (depth 3 quick / 4 thorough) x batch sizes x datastore flavour; (a) in every state a clean Stop/Start must reproduce the whole observation vector; (b) for every transition every prefix of the datastore commit log inside the last operation and the final Stop is reopened by a fresh Store: Start succeeds, Head/Tail resolve, no gap, committed headers retrievable, no dangling pointer, appending the continuation moves Head to the tip; (c) every placement of 1..3 failing batch-creation/commit writes is driven to quiescence in virtual time (retry back-off) and checked with the C04 oracle + restart.",
          "Crash granularity = one direct write or one batch commit; torn single writes are not modelled. The Stop-vs-flush-loop interleaving is not enumerated here (see C17/C12 engine). Open finding F08 reported as KNOWN-FINDING.", "2.2 C06"),
+ "C05": ("E1-netx", "fault_enumeration",
+         "deviation-bounded exhaustive enumeration of peer misbehaviour assignments (27-entry catalogue x every request position incl. retries/remainders) against the real Exchange over libp2p mocknet in a synctest bubble",
+         "The real p2p.Exchange.GetRangeByHeight runs against scripted peers; deviations are bound to the n-th request for an origin (so peer selection order cannot change the outcome) and enumerated breadth-first: every single deviation at every request position, then every second (thorough: third) deviation at every position the first run exposes, for chunk sizes {1,2,3,(5)}, 1-4 peers, deadline-honouring and deadline-ignoring transports, plus all degenerate (to<=from+1) requests. Oracle: no panic, degenerate => prompt error, a nil error => non-empty exact run from+1.. below to of the honest chain headers.",
+         "mocknet transport with a deadline decorator; forged headers carry a foreign signature (no equivocation by key holders).", "2.4 C05"),
+ "C09": ("E1-netx", "model_checking",
+         "exhaustive enumeration of ordered arrival sequences of peer answers (imposed by release gates) against the real Exchange.Head, compared step by step with a reference fold of the quorum rule",
+         "Every ordered sequence over {A, A' conflicting, B higher, older, error, hang} for 1-4 (reduced alphabet: 5, thorough 6) trusted peers and over {A, A', B, hard x2, soft, error, hang} for 1-4 tracked peers with WithTrustedHead; after each single arrival the harness observes whether Head has returned, so 'returns as soon as a quorum exists', quorum arithmetic per n, highest-head fallback, ErrNotFound, soft-failure pairing and never returning hard-failing heads are all decided per sequence.",
+         "More than 4 tracked peers (random subset of map order) is not enumerated; hang + caller deadline coincidences accept either allowed outcome.", "2.4 C09"),
+ "C10": ("E1-netx", "model_checking",
+         "exhaustive enumeration of the request input product (origin x amount relative to tail/head incl. overflow, hashes, raw frames) against the real ExchangeServer over a real pruned store behind a recording proxy",
+         "All (origin, amount) pairs over 12 x 9 boundary values, hash and raw-byte requests, against stores [5..30], [1..12], empty (thorough: [40..200]); oracle on reply shape/content and on work: headers asked from the store <= min(amount,64), no store call outside the requested heights, datastore reads bounded.",
+         "Work measured at the Store interface and as datastore reads of the real store.", "2.4 C10"),
+ "C11": ("E1-netx", "model_checking",
+         "exhaustive enumeration of payload x verifier-outcome classes on the real topic validator, plus the same classes through real gossipsub (delivery and relay observed)",
+         "12 payload classes x 11 verifier outcomes (132, complete) run on the Subscriber's real validator via the verif export: verdict must equal the reference mapping, verifier never called for undecodable/invalid payloads, ValidatorData is the decoded header, no panic escapes, waiting for a late SetVerifier works; 11 classes are additionally published over a 3-node gossipsub line to observe delivery to Subscriptions and relay.",
+         "Peer-score effects are inferred from the validation result (pubsub semantics trusted).", "2.4 C11"),
+ "C13": ("E1-netx", "fault_enumeration",
+         "exhaustive enumeration of per-peer answer assignments (17-entry catalogue) and arrival orders for 1-3 (thorough 4) trusted peers against the real Exchange.Get/GetByHeight",
+         "All assignments for n=1,2, reduced x full for n=3 (thorough: full 17^3, n=4 with <=2 bad), all 6 arrival permutations for the reduced catalogue; x {Get, GetByHeight} x {present, absent, zero target} x chain id {set, unset} x transport {honours, ignores deadlines}. Oracle: never (zero,nil), no panic, returned header validated/right chain/right hash, some peer really sent it, first valid answer wins, error when none valid, returns by the caller's deadline.",
+         "A header type whose own UnmarshalBinary panics is excluded (type-level).", "2.4 C13"),
+ "C18": ("E1-netx", "model_checking",
+         "exhaustive enumeration of the configuration product (chunk size, range length 1..3m, peers, per-peer availability vectors, one benign fault x faulty peer) with real ExchangeServers and the real Exchange over mocknet",
+         "m in {1,2,3,5,64}, L=1..3m (64: {1,63,64,65,128,150}), 1-3 (thorough 4) honest peers with availability in {empty, up to from, half, full}^P (>=1 full), faults {none, slow beyond RequestTimeout, disconnect after first answer, store grows}; result must be exactly from+1..to-1 ascending with nil error before the caller's deadline; plus Head/Get/GetByHeight byte-exact round trips.",
+         "At most one benign fault per run; servers use a simple honest in-memory store.", "2.4 C18"),
 }
 
 NOT_APPLICABLE = {}
@@ -77,6 +101,7 @@ def main():
         "engines": [
             {"name": "E0-bubble", "path": "harness/vk/bubble.go", "serves_properties": props, "kind_free_text": "testing/synctest bubble: virtual time, exact quiescence, leak/deadlock detection"},
             {"name": "E1-inputs", "path": "harness/pure", "serves_properties": ["C01", "C02"], "kind_free_text": "exhaustive input-product enumeration on the real functions vs reference oracle"},
+            {"name": "E1-netx", "path": "harness/p2px", "serves_properties": ["C05", "C09", "C10", "C11", "C13", "C18"], "kind_free_text": "real Exchange/ExchangeServer/Subscriber over libp2p mocknet inside a synctest bubble; scripted peers keyed by (origin, attempt), release gates for arrival order, deadline-honouring stream decorator"},
             {"name": "E1-seqx", "path": "harness/vk/bfs.go + harness/storex", "serves_properties": ["C04", "C06", "C08", "C14"], "kind_free_text": "explicit-state BFS over operation histories on the real store (fresh instance + replay per successor, canonical state key), LogDS commit-log/fault-injecting datastore"},
         ],
         "checks": checks,
